@@ -4,7 +4,7 @@
    The safe API lets a caller pass any sub-slices:
        p.encode_into(&text[so .. so + n], &mut mem[d .. d + m])
    where `text : Vec<u8>` and `mem : Vec<A::Symbol>` are allocations at arbitrary
-   (say 32-byte aligned) addresses, so that `so` and `d` are the misalignments of the
+   (in the harness: 64-byte aligned) addresses, so that `so` and `d` are the misalignments of the
    source and destination pointers the kernel receives.  The kernels of EncodeModel.v
    only use *unaligned* loads and stores (`_mm{,256}_loadu_si*`, `_mm{,256}_storeu_si*`;
    the translator checks that no aligned load/store, `align_offset` or `align_to`
